@@ -609,6 +609,44 @@ def rescale_clause(model, rep, funcs):
     rep.floor("SLOT.rescale", 1, "(from_array)")
 
 
+def roundoff_clause(model, rep):
+    """ROUNDOFF.  "Parameters in nanometres give identical results when parameters and scale are multiplied by the same factor": the quotient parameter / scale is the
+    same real number, but not the same float (0.15 / 0.05 = 3.0000000000000004, 1.5 / 0.5 = 3.0).  A ceiling or floor applied directly to such a quotient jumps by a
+    whole pixel on that difference, so the quotient must be rounded to a fixed number of decimals (or shifted by an explicit tolerance) first."""
+    n = 0
+    for fn in model.all_functions:
+        if not fn.module.relpath.startswith("acryo/pipe/") or fn.parent is not None:
+            continue
+        if "scale" not in fn.param_names():
+            continue
+        M = Matcher(fn)
+        for c in ast.walk(fn.node):
+            if not (isinstance(c, ast.Call) and (dotted(c.func) or "").rsplit(".", 1)[-1] in ("ceil", "floor") and c.args):
+                continue
+            x = M.expr(c.args[0])
+            # numerator: scalar physical parameters only (annotated nm / float); quotients of data arrays (atom coordinates) are values, not parameters
+            a_ = fn.node.args
+            scalar = {p_.arg for p_ in list(a_.posonlyargs) + list(a_.args) + list(a_.kwonlyargs) if p_.annotation is not None and
+                      any(t in norm_src(p_.annotation) for t in ("nm", "float")) and not any(t in norm_src(p_.annotation) for t in ("ndarray", "Array"))}
+            quot = [d for d in ast.walk(x) if isinstance(d, ast.BinOp) and isinstance(d.op, ast.Div) and
+                    any(isinstance(y, ast.Name) and y.id == "scale" for y in ast.walk(d.right)) and
+                    {y.id for y in ast.walk(d.left) if isinstance(y, ast.Name)} & scalar and
+                    not ({y.id for y in ast.walk(d.left) if isinstance(y, ast.Name)} - scalar - {"np", "float", "abs", "int"})]
+            if not quot:
+                continue
+            n += 1
+            rep.instance("ROUNDOFF", fn.loc(c))
+            guarded = any(isinstance(y, ast.Call) and (dotted(y.func) or "").rsplit(".", 1)[-1] in ("round", "around") and len(y.args) + len(y.keywords) >= 2
+                          for y in ast.walk(x)) or \
+                any(isinstance(y, ast.BinOp) and isinstance(y.op, (ast.Add, ast.Sub)) and
+                    any((isinstance(z, ast.Constant) and isinstance(z.value, float) and 0 < abs(z.value) <= 1e-3) or
+                        (isinstance(z, ast.Name) and any(t in z.id.lower() for t in ("eps", "tol"))) for z in (y.left, y.right)) for y in ast.walk(x))
+            rep.ob("ROUNDOFF", fn.anchor, "a ceiling / floor of parameter / scale is taken after rounding the quotient to fixed decimals (or with an explicit tolerance)",
+                   guarded, f"`{norm_src(c)[:70]}` of `{norm_src(quot[0])[:40]}`: the same physical parameter at another scale can land on the other side of an integer",
+                   node=c, fn=fn, clause="4 units")
+    rep.floor("ROUNDOFF", 1, "(pixel radius of the mask converters)")
+
+
 def check(model, rep, tier):
     rep.decided += ["C19.1 operator table of both pipeline classes incl. reflected operators", "C19.2 composition nests self(other(...), scale); @ is compose; with_scale closes over scale",
                     "C19.3 currying call conventions", "C19.4 nm parameters are used only as p/scale", "C19.5 Gaussian provider centre and exponent", "C19.6 mask converter dispatch"]
@@ -622,3 +660,4 @@ def check(model, rep, tier):
     units_clause(model, rep, funcs)
     gaussian_clause(model, rep, funcs)
     mask_clause(model, rep, funcs)
+    roundoff_clause(model, rep)
